@@ -2,6 +2,7 @@ package main
 
 import (
 	"encoding/json"
+	"sync/atomic"
 	"regexp"
 	"flag"
 	"fmt"
@@ -17,6 +18,7 @@ import (
 type PropConfig struct {
 	Funcs          []string `json:"funcs"`           // functions verified against their contracts
 	Safety         []string `json:"safety"`          // functions (or package prefixes ending in "...") swept for run-time panics
+	Shallow        []string `json:"shallow"`         // verified against contracts without inlining callees (callees without contract: may-write set havoced)
 	Lock           []string `json:"lock"`            // functions checked for lock discipline
 	SmtLemmas      []SmtLemma `json:"smt_lemmas"`
 	Lemmas         []string `json:"lemmas"`          // names of lemmas
@@ -66,6 +68,8 @@ type oblResult struct {
 	seconds float64
 }
 
+var failedSoFar int32
+
 func solveEscalating(o *Obligation, tier string, seed int) oblResult {
 	base := 10
 	if tier == "thorough" {
@@ -102,6 +106,9 @@ func solveEscalating(o *Obligation, tier string, seed int) oblResult {
 		t, seed int
 		cases   bool
 	}{{4 * mult, seed, false}, {8 * mult, seed, true}, {20 * mult, seed + 1, false}, {20 * mult, seed + 1, true}} {
+		if tries > 0 && atomic.LoadInt32(&failedSoFar) >= 3 && tier != "thorough" {
+			break // enough violations to report: do not spend the escalation budget on the rest
+		}
 		tries++
 		if step.cases {
 			if tryCases(step.t, step.seed) {
@@ -113,6 +120,9 @@ func solveEscalating(o *Obligation, tier string, seed int) oblResult {
 		if r.Status == "unsat" || r.Status == "sat" {
 			break
 		}
+	}
+	if r.Status != "unsat" {
+		atomic.AddInt32(&failedSoFar, 1)
 	}
 	return oblResult{o: o, res: r, proved: r.Status == "unsat", tries: tries, seconds: time.Since(start).Seconds()}
 }
@@ -194,6 +204,9 @@ func cmdCheck(args []string) int {
 	var jobs []job
 	for _, n := range matchFuncs(w, cfg.Funcs) {
 		jobs = append(jobs, job{n, verifyOpts{property: *prop}, "contract"})
+	}
+	for _, n := range matchFuncs(w, cfg.Shallow) {
+		jobs = append(jobs, job{n, verifyOpts{property: *prop, callPolicy: "shallow"}, "contract-shallow"})
 	}
 	for _, n := range matchFuncs(w, cfg.Safety) {
 		jobs = append(jobs, job{n, verifyOpts{property: *prop, nopanic: true, safetyOnly: true}, "safety"})
